@@ -572,3 +572,116 @@ package stun
 //@     invariant -1 <= rangeindex && Built(m) && ghost(setter_failed) == 0
 //@     invariant (region(m.Raw) == loopold(region(m.Raw)) || loopfresh(m.Raw)) && (region(m.Attributes) == loopold(region(m.Attributes)) || loopfresh(m.Attributes))
 //@     decreases len(setters) - rangeindex
+
+// ---- typed setters (C09: reject iff unrepresentable, fail atomically; C06: RFC wire format) ----
+
+//@ func TextAttribute.AddToAs
+//@   safety C09 C06
+//@   props C09 C06 C03
+//@   requires CanAdd(m, v)
+//@   assigns m.Raw, m.Length, m.Attributes, mem(m.Raw), mem(m.Attributes)
+//@   allocates
+//@   ensures result == nil <==> len(v) <= maxLen
+//@   ensures result != nil ==> Unchanged(m)
+//@   ensures result == nil ==> Appended(m, t, v)
+
+//@ func Username.AddTo
+//@   safety C09 C06
+//@   props C09 C06 C03
+//@   requires CanAdd(m, u)
+//@   assigns m.Raw, m.Length, m.Attributes, mem(m.Raw), mem(m.Attributes)
+//@   allocates
+//@   ensures result == nil <==> len(u) <= 513
+//@   ensures result != nil ==> Unchanged(m)
+//@   ensures result == nil ==> Appended(m, 0x0006, u)
+
+//@ func Realm.AddTo
+//@   safety C09 C06
+//@   props C09 C06 C03
+//@   requires CanAdd(m, n)
+//@   assigns m.Raw, m.Length, m.Attributes, mem(m.Raw), mem(m.Attributes)
+//@   allocates
+//@   ensures result == nil <==> len(n) <= 763
+//@   ensures result != nil ==> Unchanged(m)
+//@   ensures result == nil ==> Appended(m, 0x0014, n)
+
+//@ func Nonce.AddTo
+//@   safety C09 C06
+//@   props C09 C06 C03
+//@   requires CanAdd(m, n)
+//@   assigns m.Raw, m.Length, m.Attributes, mem(m.Raw), mem(m.Attributes)
+//@   allocates
+//@   ensures result == nil <==> len(n) <= 763
+//@   ensures result != nil ==> Unchanged(m)
+//@   ensures result == nil ==> Appended(m, 0x0015, n)
+
+//@ func Software.AddTo
+//@   safety C09 C06
+//@   props C09 C06 C03
+//@   requires CanAdd(m, s)
+//@   assigns m.Raw, m.Length, m.Attributes, mem(m.Raw), mem(m.Attributes)
+//@   allocates
+//@   ensures result == nil <==> len(s) <= 763
+//@   ensures result != nil ==> Unchanged(m)
+//@   ensures result == nil ==> Appended(m, 0x8022, s)
+
+// AppendedHdr: as Appended, but the value bytes are described by the caller's own clauses.
+//@ define AppendedHdr(m, t, vl) = m.Length == old(m.Length) + 4 + pad4(vl) && len(m.Raw) == 20 + m.Length
+//@   | && be16(m.Raw, 2) == m.Length
+//@   | && forall(i, 0, 20 + old(m.Length), i == 2 || i == 3 || m.Raw[i] == old(m.Raw[i]))
+//@   | && be16(m.Raw, 20 + old(m.Length)) == t && be16(m.Raw, 20 + old(m.Length) + 2) == vl
+//@   | && forall(j, vl, pad4(vl), m.Raw[20 + old(m.Length) + 4 + j] == 0)
+//@   | && len(m.Attributes) == old(len(m.Attributes)) + 1
+//@   | && forall(k, 0, old(len(m.Attributes)), m.Attributes[k] == old(m.Attributes[k]))
+//@   | && m.Attributes[old(len(m.Attributes))].Type == t && m.Attributes[old(len(m.Attributes))].Length == vl
+//@   | && len(m.Attributes[old(len(m.Attributes))].Value) == vl
+//@   | && forall(j, 0, vl, m.Attributes[old(len(m.Attributes))].Value[j] == m.Raw[20 + old(m.Length) + 4 + j])
+
+// NewValue(m, j): byte j of the value of the attribute just appended
+//@ define NewValue(m, j) = m.Raw[20 + old(m.Length) + 4 + j]
+
+//@ func ErrorCodeAttribute.AddTo
+//@   safety C09 C06
+//@   props C09 C06 C03
+//@   requires msg != nil && len(msg.Raw) >= 20 + msg.Length && Fits(msg, 4 + len(c.Reason)) && region(c.Reason) != region(msg.Raw)
+//@   requires 0 <= c.Code && c.Code <= 25599
+//@   assigns msg.Raw, msg.Length, msg.Attributes, mem(msg.Raw), mem(msg.Attributes)
+//@   allocates
+//@   ensures result == nil <==> len(c.Reason) <= 763
+//@   ensures result != nil ==> Unchanged(msg)
+//@   ensures result == nil ==> AppendedHdr(msg, 0x0009, 4 + len(c.Reason))
+//@   ensures result == nil ==> NewValue(msg, 0) == 0 && NewValue(msg, 1) == 0 && NewValue(msg, 2) == c.Code / 100 && NewValue(msg, 3) == c.Code % 100
+//@   ensures result == nil ==> forall(j, 0, len(c.Reason), NewValue(msg, 4 + j) == old(c.Reason[j]))
+
+//@ func isZeros
+//@   safety C06 C09
+//@   props C06 C09
+//@   pure
+//@   ensures result <==> forall(j, 0, len(p), p[j] == 0)
+//@   loop 0
+//@     invariant 0 <= i && i <= len(p) && forall(j, 0, i, p[j] == 0)
+//@     decreases len(p) - i
+
+//@ func isIPv4
+//@   safety C06 C09
+//@   props C06 C09
+//@   pure
+//@   requires len(ip) == 16
+//@   ensures result <==> (forall(j, 0, 10, ip[j] == 0) && ip[10] == 255 && ip[11] == 255)
+
+// AddrValue(m, fam, port, ip, n): the appended value is  0 | family | port | ip[0..n)
+//@ define AddrHdr(m, fam, port) = NewValue(m, 0) == 0 && NewValue(m, 1) == fam && NewValue(m, 2) == port / 256 && NewValue(m, 3) == port % 256
+
+//@ func (*MappedAddress).AddToAs
+//@   safety C09 C06
+//@   props C09 C06 C03
+//@   requires a != nil && msg != nil && len(msg.Raw) >= 20 + msg.Length && Fits(msg, 20) && region(a.IP) != region(msg.Raw)
+//@   assigns msg.Raw, msg.Length, msg.Attributes, mem(msg.Raw), mem(msg.Attributes)
+//@   allocates
+//@   ensures result == nil <==> (len(a.IP) == 4 || len(a.IP) == 16)
+//@   ensures result != nil ==> Unchanged(msg)
+//@   ensures result == nil && len(a.IP) == 4 ==> AppendedHdr(msg, attrType, 8) && AddrHdr(msg, 1, uint16(a.Port)) && forall(j, 0, 4, NewValue(msg, 4+j) == old(a.IP[j]))
+//@   ensures result == nil && len(a.IP) == 16 && old(isIPv4spec(a.IP)) ==> AppendedHdr(msg, attrType, 8) && AddrHdr(msg, 1, uint16(a.Port)) && forall(j, 0, 4, NewValue(msg, 4+j) == old(a.IP[12+j]))
+//@   ensures result == nil && len(a.IP) == 16 && !old(isIPv4spec(a.IP)) ==> AppendedHdr(msg, attrType, 20) && AddrHdr(msg, 2, uint16(a.Port)) && forall(j, 0, 16, NewValue(msg, 4+j) == old(a.IP[j]))
+
+//@ define isIPv4spec(ip) = forall(j, 0, 10, ip[j] == 0) && ip[10] == 255 && ip[11] == 255
